@@ -93,22 +93,93 @@ theorem reduceAxisKeep_spec {α} (ds r : Ds α) (name : String) (newAxis : Axis)
           · exact hacc.2.2 kv' hin
           · exact ⟨kv, hkv, ha⟩
 
+/-- the axes of the result of `reduceAxisKeep`: the axis passed in, an axis of the Dataset, or an axis (of a variable)
+whose name the Dataset does not know -/
+theorem reduceAxisKeep_axes {α} (ds r : Ds α) (name : String) (newAxis : Axis) (f : Nat → DimArray α → NDArr α)
+    (hname : newAxis.name = name) (h : reduceAxisKeep ds name newAxis f = .ok r) :
+    ∀ e ∈ r.axes, e = newAxis ∨ e ∈ ds.axes ∨ e.name ∉ ds.dims := by
+  unfold reduceAxisKeep at h
+  split at h
+  · cases h
+  · obtain ⟨out, hout, h⟩ := bind_ok h
+    cases h
+    have inv := foldlM_inv (fun acc : Ds α =>
+        (∀ e ∈ acc.axes, e = newAxis ∨ e ∈ ds.axes ∨ e.name ∉ ds.dims) ∧ (∀ d ∈ ds.dims, d ∈ acc.dims)) _ _ _ _ ?_ ⟨?_, ?_⟩ hout
+    · exact inv.1
+    · intro acc kv acc' hkv hacc hstep
+      simp only at hstep
+      split at hstep
+      all_goals
+        obtain ⟨_, e2, e3, _⟩ := setItem_spec _ _ _ _ hstep
+        refine ⟨?_, ?_⟩
+        · intro e he
+          rcases e2 e he with hin | ⟨_, hnot⟩
+          · exact hacc.1 e hin
+          · exact Or.inr (Or.inr fun hd => hnot (hacc.2 _ hd))
+        · intro d hd
+          obtain ⟨e, he, hen⟩ := List.mem_map.mp (hacc.2 d hd)
+          exact List.mem_map.mpr ⟨e, e3 e he, hen⟩
+    · intro e he
+      obtain ⟨ax, hax, rfl⟩ := List.mem_map.mp he
+      by_cases hc : (ax.name == name) = true
+      · rw [if_pos hc]; exact Or.inl rfl
+      · rw [if_neg hc]; exact Or.inr (Or.inl hax)
+    · intro d hd
+      obtain ⟨ax, hax, rfl⟩ := List.mem_map.mp hd
+      refine List.mem_map.mpr ⟨_, List.mem_map.mpr ⟨ax, hax, rfl⟩, ?_⟩
+      by_cases hc : (ax.name == name) = true
+      · simp only [hc, if_true]; rw [hname]; exact (by simpa using hc : ax.name = name).symm
+      · simp only [hc, Bool.false_eq_true, if_false]
+
+theorem find?_name_some' {AX : List Axis} {n : String} {e : Axis} (h : AX.find? (fun a => a.name == n) = some e) :
+    e ∈ AX ∧ e.name = n := by
+  refine ⟨List.mem_of_find?_eq_some h, ?_⟩
+  have := List.find?_some h
+  simpa using this
+
+/-- the by-name rule from "every axis that has the name of a Dataset axis carries the pair of one of them" -/
+theorem kept_of_known {src dst : List Axis}
+    (h : ∀ e ∈ dst, e.name ∈ src.map (·.name) → (e.name, e.attrs) ∈ axisMeta src)
+    (hn : (src.map (·.name)).Nodup) : AxisAttrsKept src dst := by
+  intro ax' hax' ax hax hname
+  obtain ⟨ax2, hax2, hn2, ha2⟩ := mem_axisMeta.mp (h ax' hax' (List.mem_map.mpr ⟨ax, hax, hname.symm⟩))
+  have : ax2 = ax := name_inj hn hax2 hax (hn2.trans hname)
+  subst this
+  exact ha2.symm
+
+/-- `Dataset.take_axis` (positions): Dataset metadata kept; the operated axis comes back with the metadata of the
+Dataset's axis of that name; every axis whose name the Dataset knows carries the metadata of a Dataset axis of that
+name; the variables keep theirs -/
 theorem takeAxisPosDs_spec {α} (ds r : Ds α) (name : String) (ps : List Nat) (h : takeAxisPosDs ds name ps = .ok r) :
-    r.attrs = ds.attrs ∧ (∀ e ∈ r.axes, e.name = name → e.attrs = []) ∧ (∃ e ∈ r.axes, e.name = name) ∧
+    r.attrs = ds.attrs ∧
+    (∀ e ∈ r.axes, e.name = name → ∃ ax, ds.axes.find? (·.name == name) = some ax ∧ e.attrs = ax.attrs) ∧
+    (∃ e ∈ r.axes, e.name = name) ∧
+    (∀ e ∈ r.axes, e.name ∈ ds.dims → (e.name, e.attrs) ∈ axisMeta ds.axes) ∧
     (∀ kv ∈ r.vars, ∃ kv0 ∈ ds.vars, kv.2.attrs = kv0.2.attrs) := by
   unfold takeAxisPosDs at h
   split at h
   · cases h
-  · split at h
+  · rename_i ax hfind
+    split at h
     · cases h
     · obtain ⟨h1, h2, ⟨e, he, hee⟩, h4⟩ := reduceAxisKeep_spec ds r name _ _ rfl h
-      refine ⟨h1, ?_, ⟨e, he, by rw [hee]⟩, h4⟩
-      intro e' he' hn
-      rw [h2 e' he' hn]
+      have h5 := reduceAxisKeep_axes ds r name _ _ rfl h
+      obtain ⟨hmem, hnm⟩ := find?_name_some' hfind
+      refine ⟨h1, ?_, ⟨e, he, by rw [hee]⟩, ?_, h4⟩
+      · intro e' he' hn
+        exact ⟨ax, hfind, by rw [h2 e' he' hn]⟩
+      · intro e' he' hd
+        rcases h5 e' he' with rfl | hin | hnot
+        · exact mem_axisMeta.mpr ⟨ax, hmem, hnm, rfl⟩
+        · exact mem_axisMeta.mpr ⟨e', hin, rfl, rfl⟩
+        · exact absurd hd hnot
 
 theorem takeAxisLabel_spec {α} (ds r : Ds α) (name : String) (labels : List Label) (clip : Bool)
     (h : takeAxisLabel ds name labels clip = .ok r) :
-    r.attrs = ds.attrs ∧ (∀ e ∈ r.axes, e.name = name → e.attrs = []) ∧ (∃ e ∈ r.axes, e.name = name) ∧
+    r.attrs = ds.attrs ∧
+    (∀ e ∈ r.axes, e.name = name → ∃ ax, ds.axes.find? (·.name == name) = some ax ∧ e.attrs = ax.attrs) ∧
+    (∃ e ∈ r.axes, e.name = name) ∧
+    (∀ e ∈ r.axes, e.name ∈ ds.dims → (e.name, e.attrs) ∈ axisMeta ds.axes) ∧
     (∀ kv ∈ r.vars, ∃ kv0 ∈ ds.vars, kv.2.attrs = kv0.2.attrs) := by
   unfold takeAxisLabel at h
   split at h
@@ -119,7 +190,10 @@ theorem takeAxisLabel_spec {α} (ds r : Ds α) (name : String) (labels : List La
     · cases h
 
 theorem sortAxisDs_spec {α} (ds r : Ds α) (name : String) (h : sortAxisDs ds name = .ok r) :
-    r.attrs = ds.attrs ∧ (∀ e ∈ r.axes, e.name = name → e.attrs = []) ∧ (∃ e ∈ r.axes, e.name = name) ∧
+    r.attrs = ds.attrs ∧
+    (∀ e ∈ r.axes, e.name = name → ∃ ax, ds.axes.find? (·.name == name) = some ax ∧ e.attrs = ax.attrs) ∧
+    (∃ e ∈ r.axes, e.name = name) ∧
+    (∀ e ∈ r.axes, e.name ∈ ds.dims → (e.name, e.attrs) ∈ axisMeta ds.axes) ∧
     (∀ kv ∈ r.vars, ∃ kv0 ∈ ds.vars, kv.2.attrs = kv0.2.attrs) := by
   unfold sortAxisDs at h
   split at h
@@ -128,29 +202,42 @@ theorem sortAxisDs_spec {α} (ds r : Ds α) (name : String) (h : sortAxisDs ds n
 
 theorem reindexAxisDs_spec {α} (ds r : Ds α) (name : String) (newL : List Label) (nk : Kind) (fill : α) (fk : Kind)
     (h : reindexAxisDs ds name newL nk fill fk = .ok r) :
-    r.attrs = ds.attrs ∧ (∀ e ∈ r.axes, e.name = name → e.attrs = []) ∧ (∃ e ∈ r.axes, e.name = name) ∧
+    r.attrs = ds.attrs ∧
+    (∀ e ∈ r.axes, e.name = name → ∃ ax, ds.axes.find? (·.name == name) = some ax ∧ e.attrs = ax.attrs) ∧
+    (∃ e ∈ r.axes, e.name = name) ∧
+    (∀ e ∈ r.axes, e.name ∈ ds.dims → (e.name, e.attrs) ∈ axisMeta ds.axes) ∧
     (∀ kv ∈ r.vars, ∃ kv0 ∈ ds.vars, kv.2.attrs = kv0.2.attrs) := by
   unfold reindexAxisDs at h
   split at h
   · cases h
-  · simp only at h
+  · rename_i ax hfind
+    obtain ⟨hmem, hnm⟩ := find?_name_some' hfind
+    simp only at h
     split at h
     · cases h
     · obtain ⟨taken, ht, h⟩ := bind_ok h
-      obtain ⟨t1, t2, ⟨e0, he0, hn0⟩, t4⟩ := takeAxisPosDs_spec ds taken name _ ht
+      obtain ⟨t1, t2, ⟨e0, he0, hn0⟩, t3, t4⟩ := takeAxisPosDs_spec ds taken name _ ht
       split at h
-      · cases h; exact ⟨t1, t2, ⟨e0, he0, hn0⟩, t4⟩
+      · cases h; exact ⟨t1, t2, ⟨e0, he0, hn0⟩, t3, t4⟩
       · cases h
-        refine ⟨t1, ?_, ?_, ?_⟩
+        refine ⟨t1, ?_, ?_, ?_, ?_⟩
         · intro e he hn
           obtain ⟨a, ha, rfl⟩ := List.mem_map.mp he
           by_cases hax : (a.name == name) = true
           · simp only [hax, if_true]
+            exact ⟨ax, hfind, rfl⟩
           · simp only [hax, Bool.false_eq_true, if_false] at hn ⊢
             exact t2 a ha hn
         · refine ⟨_, List.mem_map.mpr ⟨e0, he0, rfl⟩, ?_⟩
           have : (e0.name == name) = true := by simpa using hn0
           simp only [this, if_true]
+        · intro e he hd
+          obtain ⟨a, ha, rfl⟩ := List.mem_map.mp he
+          by_cases hax : (a.name == name) = true
+          · simp only [hax, if_true]
+            exact mem_axisMeta.mpr ⟨ax, hmem, hnm, rfl⟩
+          · simp only [hax, Bool.false_eq_true, if_false] at hd ⊢
+            exact t3 a ha hd
         · intro kv hkv
           obtain ⟨kv1, hkv1, rfl⟩ := List.mem_map.mp hkv
           obtain ⟨kv0, hkv0, ha⟩ := t4 kv1 hkv1
